@@ -41,6 +41,7 @@ fn run(args: &[String]) -> i32 {
             props::replay(path)
         }
         Some("--serve") => props::c16::serve(),
+        Some("c16-stubs") => props::c16::list_stubs(),
         Some("c13-survey") => props::c13::survey(),
         Some("c14-survey") => props::c14::survey(),
         Some("c14-probe") => props::c14::probe(args[2].parse().unwrap(), args[3].parse().unwrap(), &args[4]),
